@@ -9,6 +9,7 @@ LEVEL_TEXT = ("Lex-back monitoring: for adversarial Unicode strings and every di
               "tokenizer: exactly one string (identifier) token whose text is the value; the token stream around a value or a "
               "comment equals that of a harmless template. SQLite and DuckDB echo the literal / identifier back as a second, "
               "independent judge of generator and tokenizer together.")
+LEVEL_TEXT += (" Quoted identifiers are also generated with the node's optional flags (temporary / global_) set.")
 LEVEL_NOTE = "Dialect.tokenize defines 'lexes back' (cross-checked by two real engines for their dialects); NUL is excluded from the engine echo"
 TECHNIQUE = "runtime monitoring: token-stream oracle over adversarial strings x dialects, plus engine echo"
 RULE = ("all atoms and ordered pairs of an adversarial alphabet (quotes of every dialect, backslash, doubled delimiters, $, $$, "
@@ -167,6 +168,27 @@ def check_value(ctx, d, D, v, vi):
             bad, det = one_token(sql, "identifier", {"IDENTIFIER", "VAR"} if False else {"IDENTIFIER"})
             if bad:
                 ctx.violation(f"identifier:{dn}:{bad}:{feature(v)}", {"value": v, **det}, case)
+        # the node's optional flags (temporary / global_, set by the T-SQL parser for #name / ##name and settable by hand) must
+        # not open a way around the escaping: still one identifier token, carrying the name (with the marker where a dialect
+        # writes it inside the quotes)
+        for flag, marks in (("temporary", ("#",)), ("global_", ("##", "#"))):
+            try:
+                fsql = exp.Identifier(this=v, quoted=True, **{flag: True}).sql(dialect=d)
+            except Exception as e:
+                ctx.violation(f"identifier:{dn}:generate-raises:{type(e).__name__}", {"value": v, "flag": flag, "error": repr(e)[:200]}, case)
+                continue
+            ctx.count("identifier_flag_checks")
+            toks, err = _tok(D, fsql)
+            ctx.count("tokenizations")
+            ctx.count("evaluations")
+            if err:
+                ctx.violation(f"identifier-{flag}:{dn}:token-error:{feature(v)}", {"value": v, "sql": fsql, "error": err}, case)
+            elif len(toks) == 2 and toks[0].text in marks and toks[1].token_type.name == "IDENTIFIER" and toks[1].text == v:
+                pass    # marker written outside the quotes
+            elif len(toks) != 1 or toks[0].token_type.name != "IDENTIFIER":
+                ctx.violation(f"identifier-{flag}:{dn}:token-count:{feature(v)}", {"value": v, "sql": fsql, "tokens": [(t.token_type.name, t.text) for t in toks][:6]}, case)
+            elif toks[0].text not in (v,) + tuple(m + v for m in marks):
+                ctx.violation(f"identifier-{flag}:{dn}:text-differs:{feature(v)}", {"value": v, "sql": fsql, "text": toks[0].text}, case)
     # --- comments -------------------------------------------------------------------
     if vi % 6 == 0:
         from sqlglot import parse_one
